@@ -366,25 +366,24 @@ pub fn diagnose_store(
             ),
         );
     }
-    // memory pressure (possibly followed by an entry-limit eviction)
-    if removed.len() > max_removed {
+    // memory pressure (possibly followed by an entry-limit eviction). The victims are evicted one
+    // at a time until the total fits, so "too many" can only be blamed on the memory accounting
+    // when EVERY removed entry could have stayed (whichever was last, it was not needed); a
+    // different number of evictions that is explained by choosing other victims is a wrong victim.
+    let total_after: usize = aft.iter().map(|x| if *x == k { fp } else { m.e.get(x).map_or(0, |e| e.fp) }).sum();
+    let mm = p.max_memory.unwrap_or(usize::MAX);
+    let all_needless = !removed.is_empty() && removed.iter().all(|v| total_after + m.e.get(v).map_or(0, |e| e.fp) <= mm);
+    if removed.len() > max_removed && all_needless {
         return Clause::new(
             "mem_overevict",
             &["C05"],
             format!(
-                "store of key {k} ({fp} bytes) removed {removed:?}; at most {max_removed} evictions were needed: before {:?} [{}]",
+                "store of key {k} ({fp} bytes) removed {removed:?} although every one of them could have stayed ({total_after} bytes remain, max_memory {mm}): before {:?} [{}]",
                 before, p.short()
             ),
         );
     }
-    if removed.len() < min_removed {
-        // fewer than necessary yet within bounds cannot happen; bounds were checked above
-        return Clause::new(
-            "mem_underevict",
-            &["C05"],
-            format!("store of key {k} removed only {removed:?} [{}]", p.short()),
-        );
-    }
+    let _ = min_removed;
     let _ = now;
     Clause::new(
         "wrong_victim",
